@@ -892,6 +892,17 @@ func c14DecodeTarget(script []byte) (terms []string, at map[int]int, err error) 
 
 // ---------- running fragment programs ----------
 
+// runs longer than this many VM instructions are compared (VM against Go) but not re-executed in Coq
+const c14FragStepCap = 6000
+
+func c14AddExtra(co *caseOut, key string, n int) {
+	if v, ok := co.extra[key].(int); ok {
+		co.extra[key] = v + n
+	} else {
+		co.extra[key] = n
+	}
+}
+
 type c14FragRunIn struct {
 	F    int      `json:"f"`
 	Args []c14Val `json:"args"`
@@ -992,10 +1003,16 @@ func c14FragRun(co *caseOut, dir string, ins []c14FragInput) error {
 		}
 		var runs []string
 		someValue := false
+		skipped := 0
 		for k, op := range in.Ops {
 			f := u.Funcs[op.F]
 			vm, _ := c14VMResult(cc, f, op.Args, nil)
 			g := gores[first[i]+k]
+			if c14LastSteps > c14FragStepCap && vm == g {
+				// long runs are left to the differential check above (vm == g): evaluating them in Coq is what costs time
+				skipped++
+				continue
+			}
 			impl.VM = append(impl.VM, vm)
 			impl.Go = append(impl.Go, g)
 			as := make([]string, len(op.Args))
@@ -1009,6 +1026,9 @@ func c14FragRun(co *caseOut, dir string, ins []c14FragInput) error {
 		}
 		term := fmt.Sprintf("CFrag\n   %s\n   [%s]\n   [%s]\n   [%s]", in.Coq, strings.Join(terms, "; "), strings.Join(ents, "; "), strings.Join(runs, ";\n    "))
 		tag := in.Tag
+		if skipped > 0 {
+			c14AddExtra(co, "x_frag_long_runs_not_evaluated_in_coq", skipped)
+		}
 		if !impl.Decoded {
 			tag = "outside-subset"
 		}
